@@ -48,6 +48,13 @@ type hookCase struct {
 	PriorShape string `json:"prior_shape,omitempty"`
 	// ExplicitParser: the client's configuration names the standard response parser explicitly (see cli.Scenario)
 	ExplicitParser bool `json:"explicit_parser,omitempty"`
+	// Address: the form of the address given to Connect (network kinds; see cli.Scenario)
+	Address string `json:"address,omitempty"`
+	// CancelChunk k > 0: the caller's context is cancelled while the read that delivers the k-th chunk is in flight; that read
+	// then takes CancelBlockMs more milliseconds and returns its bytes. However the client reacts to the cancellation, the read did
+	// happen and the after-read hook must be told about it.
+	CancelChunk   int `json:"cancel_chunk,omitempty"`
+	CancelBlockMs int `json:"cancel_block_ms,omitempty"`
 }
 
 func scenario(c hookCase) (cli.Scenario, []byte, error) {
@@ -93,6 +100,8 @@ func scenario(c hookCase) (cli.Scenario, []byte, error) {
 				kind = "ioerr"
 			}
 			ev = append(ev, xport.Event{Kind: kind, N: k})
+		} else if c.CancelChunk == i+1 && c.CancelBlockMs > 0 {
+			ev = append(ev, xport.Event{Kind: "cancel", N: k, Ms: c.CancelBlockMs})
 		} else {
 			ev = append(ev, xport.Event{Kind: "data", N: k})
 		}
@@ -106,7 +115,7 @@ func scenario(c hookCase) (cli.Scenario, []byte, error) {
 		ev = append(ev, xport.Event{Kind: "eof", N: 0})
 	}
 	ev = append(ev, xport.Event{Kind: "ioerr", N: 0}) // backstop
-	return cli.Scenario{Kind: c.Kind, Req: c.Req, Stream: reply[:n], Events: ev, ReadTimeoutMs: 5000, CustomParse: c.CustomParse, Prior: c.Prior, PriorReq: priorReq(c), ExplicitParser: c.ExplicitParser && !c.CustomParse}, reply, nil
+	return cli.Scenario{Kind: c.Kind, Req: c.Req, Stream: reply[:n], Events: ev, ReadTimeoutMs: 5000, CustomParse: c.CustomParse, Prior: c.Prior, PriorReq: priorReq(c), ExplicitParser: c.ExplicitParser && !c.CustomParse, Address: c.Address}, reply, nil
 }
 
 func priorReq(c hookCase) *spec.Req { return cli.PriorShapeReq(c.PriorShape) }
@@ -147,6 +156,12 @@ func runHook(c hookCase) harness.Result {
 	}
 	if c.EchoFirst {
 		labels = append(labels, "echoed-request-first")
+	}
+	if c.CancelChunk > 0 && c.CancelBlockMs > 0 {
+		labels = append(labels, "cancelled-while-a-read-is-in-flight")
+	}
+	if o.ReadLeftInFlight || plain.ReadLeftInFlight {
+		return harness.Fail("a transport read was still in flight 2 s after the call had returned")
 	}
 	if c.Extra > 0 {
 		labels = append(labels, "oversized-reply")
@@ -304,6 +319,13 @@ func genHook(t *rapid.T, kinds []string) hookCase {
 		c.CustomParse = rapid.Bool().Draw(t, "custom_parse")
 	}
 	c.ExplicitParser = !cli.IsSerial(c.Kind) && !c.CustomParse && rapid.IntRange(0, 2).Draw(t, "explicit_parser") == 0
+	if !cli.IsSerial(c.Kind) {
+		c.Address = rapid.SampledFrom(cli.Addresses).Draw(t, "address")
+	}
+	if nch := len(c.Cuts) + 1; c.Deliver > 0 && rapid.IntRange(0, 19).Draw(t, "cancel_in_flight") == 0 {
+		c.CancelChunk = rapid.IntRange(1, nch).Draw(t, "cancel_chunk")
+		c.CancelBlockMs = rapid.SampledFrom([]int{3, 10, 25}).Draw(t, "cancel_block_ms")
+	}
 	if rapid.IntRange(0, 3).Draw(t, "with_prior") == 0 {
 		c.Prior = rapid.SampledFrom([]string{"success", "ioerr"}).Draw(t, "prior")
 		c.PriorShape = rapid.SampledFrom(cli.PriorShapes).Draw(t, "prior_shape")
